@@ -33,7 +33,7 @@ def run(tier):
                           detail=f"decimal {'-' if ev['neg'] else ''}{''.join(map(str, ev['d']))}e{ev['e']} stored as words {ev['w']}: not the correctly rounded double",
                           case=ev, build="(first build)", replay=dict(harness="Trace_Num", event=ev)))
     # life cycle (spec/Sonic.tla): Parse into a document that held other trees before, after mutations and earlier parses
-    D.lifecycle(ctx, "C03", builds[:2], 2 if q else 60, 25 if q else 40, 3)
+    D.lifecycle(ctx, "C03", builds[:2], 2 if q else 12, 25 if q else 40, 3)
     ctx.samples += events[:3]
     ctx.extra.update(replayed_cases=total, builds=builds, alignments=pads, doubles_validated=len(events))
     ctx.assumptions += ["R-model JsonText!Denote is the only value oracle; doubles are judged by Rounding!RoundsTo in TLC",
